@@ -11,6 +11,7 @@
     engine (src/verif_hooks.rs), so a run of the real engine yields a label
     sequence that this model replays (trace validation). *)
 From Coq Require Import NArith List Bool.
+From Snel Require Import Gen.Params.
 Import ListNotations.
 Open Scope N_scope.
 
@@ -338,11 +339,16 @@ Definition fragile (s : shard) (u : N) : bool :=
 Definition select_mem_only (s : shard) (u : N) : list event := dedup_ev (of_uid u (mem_rows s)) [].
 Definition select_outcomes (s : shard) (u : N) : list (list event) :=
   if fragile s u then [select s u; select_mem_only s u] else [select s u].
-(** what an aggregate counts: the segment flow is filtered by event type, but the
-    in-memory flow (active memtable + passive copies) is aggregated WITHOUT the
-    event-type / context / time filters (aggregate plans skip the special-field
-    conditions) — confirmed on the implementation; see C03/C09 known findings. *)
-Definition count (s : shard) (u : N) : N := len (mem_rows s) + len (of_uid u (seg_rows s)).
+(** what an aggregate counts.  The segment flow is filtered by event type (zones are per type).  The
+    in-memory flow (active memtable + passive copies) is filtered by the event-type / context / time
+    conditions iff the memtable read paths build their evaluator with them for aggregation plans
+    ([Params.agg_mem_filters_type], regenerated from condition_evaluator_builder.rs, memtable_source.rs and
+    memtable_query.rs; before fix dc170f4 it was false and every in-memory row was counted).  Rows present
+    both in memory and in a scanned segment are counted twice either way (aggregation happens before the
+    id de-duplication). *)
+Definition count_with (mem_typed : bool) (s : shard) (u : N) : N :=
+  len (if mem_typed then of_uid u (mem_rows s) else mem_rows s) + len (of_uid u (seg_rows s)).
+Definition count (s : shard) (u : N) : N := count_with agg_mem_filters_type s u.
 (** the count an exact aggregate would report *)
 Definition count_exact (s : shard) (u : N) : N := len (scan s u).
 
